@@ -1,21 +1,30 @@
 """Run scenarios against the library in /repo's working tree and record traces.
 
 A scenario is a dict:
-  {"id", "fam", "obj": "ind"|"hex", "inds": [IndCfg], "hex": {timeframe, fill, lifespan, ctype},
-   "stream": [(ts, o, h, l, c, v)], "prog": [steps], "twin": "batch"|None, "form": "candle"|"dict"|"list"}
-steps:  ("new", k) | ("append", a, b) | ("calculate", name) | ...
+  {"id", "fam", "obj": "ind"|"hex", "inds": [IndCfg], "late": [IndCfg added by 'add' steps],
+   "hex": {timeframe, fill, lifespan, ctype}, "stream": [(ts, o, h, l, c, v)], "prog": [steps],
+   "twins": [...], "form": "candle"|"dict"|"list", "member_forms": [...], "work": bool}
+steps:
+  ("new", k) | ("append", a, b) | ("collapse",) | ("calculate", name) | ("purge", name) |
+  ("recalculate", name) | ("calculate_index", name, idx) | ("add", i) | ("remove", name) |
+  ("reads", [read, ...])
+reads: ("ind.reading", ind_no, name, idx) ... see do_read().
 The recorder only drives the public API and projects state (proj.py); it decides nothing.
 """
 from __future__ import annotations
 
+import copy
 import sys
 from datetime import timedelta
 
 sys.path.insert(0, "/repo")
 
+from catalog import ref  # noqa: E402
 from proj import candles as proj_candles  # noqa: E402
-from proj import delta  # noqa: E402
+from proj import delta, val  # noqa: E402
 from streams import base_for, tf_seconds  # noqa: E402
+
+NOIDX = 999999
 
 
 def mk_candles(stream, base, a, b, form="candle"):
@@ -29,8 +38,34 @@ def mk_candles(stream, base, a, b, form="candle"):
             out.append(Candle(open=o, high=h, low=l, close=c, volume=v, timestamp=t))
         elif form == "dict":
             out.append({"open": o, "high": h, "low": l, "close": c, "volume": v, "timestamp": t})
+        elif form == "list_ts_last":
+            out.append([o, h, l, c, v, t] if t is not None else [o, h, l, c, v])
         else:
             out.append([t, o, h, l, c, v] if t is not None else [o, h, l, c, v])
+    return out
+
+
+def flat_args(data, base):
+    """caller-owned containers as a flat list of integers (for the args-unchanged clause)"""
+    from proj import frac, ts_of
+
+    out = []
+    items = data if isinstance(data, list) and data and isinstance(data[0], (list, dict)) else [data]
+    for it in items:
+        if isinstance(it, dict):
+            out.append(len(it))
+            for k in ("open", "high", "low", "close", "volume"):
+                n, d, _ = frac(it.get(k, 0))
+                out += [n, d]
+            out.append(ts_of(it.get("timestamp"), base))
+        elif isinstance(it, list):
+            out.append(len(it))
+            for x in it:
+                if isinstance(x, (int, float)):
+                    n, d, _ = frac(x)
+                    out += [n, d]
+                else:
+                    out.append(ts_of(x, base))
     return out
 
 
@@ -51,100 +86,214 @@ def raw_json(stream):
     return out
 
 
-def mgr_cfg(name, tf, fill, life, ha, src=0):
+def mgr_cfg(name, tf, fill, life, ha, src=0, late=0):
     return {"nm": name, "tf": tf_seconds(tf), "fill": bool(fill),
-            "life": -1 if life is None else int(life.total_seconds()), "ha": bool(ha), "src": src}
+            "life": -1 if life is None else int(life.total_seconds()), "ha": bool(ha),
+            "src": src, "late": late}
 
 
 class Session:
-    """one object under test + the list of candle lists that make up its state"""
+    """one object under test"""
 
     def __init__(self, sc, base):
         self.sc, self.base = sc, base
         self.obj = None
-        self.inds = []
-        self.names = []
+        self.cfgs = []        # IndCfg of every indicator ever registered, in order
+        self.live = {}        # cfg index -> live name
+        self.active = []      # cfg indices currently registered
+        self.args = ([], [])
 
     # -- construction ------------------------------------------------------
+    def _member(self, cfg, form):
+        if form == "obj":
+            return cfg.build(standalone=False)
+        if form == "dict":
+            return cfg.as_dict()
+        return cfg.build(standalone=False).settings      # settings round trip
+
     def new(self, k):
         sc = self.sc
         cands = mk_candles(sc["stream"], self.base, 1, k, "candle")
+        self.cfgs = list(sc["inds"]) + list(sc.get("late", []))
         if sc["obj"] == "ind":
-            cfg = sc["inds"][0]
-            self.obj = cfg.build(candles=cands)
-            self.inds = [self.obj]
+            self.obj = sc["inds"][0].build(candles=cands)
+            self.live = {0: self.obj.name}
+            self.active = [0]
         else:
             from hexital import Hexital
 
             hx = sc.get("hex", {})
-            members = []
-            for cfg, form in zip(sc["inds"], sc.get("member_forms", ["obj"] * len(sc["inds"]))):
-                if form == "obj":
-                    members.append(cfg.build(standalone=False))
-                elif form == "dict":
-                    members.append(cfg.as_dict())
-                else:  # settings round trip
-                    members.append(cfg.build(standalone=False).settings)
+            forms = sc.get("member_forms", ["obj"] * len(sc["inds"]))
+            members = [self._member(c, f) for c, f in zip(sc["inds"], forms)]
             self.obj = Hexital("verif", cands, members, timeframe=hx.get("timeframe"),
                                timeframe_fill=hx.get("fill", False),
                                candles_lifespan=hx.get("lifespan"),
                                candlestick_type=hx.get("ctype"))
-            self.inds = list(self.obj.indicators.values())
-        self.names = [i.name for i in self.inds]
+            names = list(self.obj.indicators.keys())
+            self.live = {i: n for i, n in enumerate(names)}
+            self.active = list(range(len(names)))
+
+    def indicator(self, i):
+        if self.sc["obj"] == "ind":
+            return self.obj
+        return self.obj.indicator(self.live[i])
 
     def managers(self):
-        """[(name, candle list)] in a fixed order"""
+        """[(name, candle list)] of the managers that exist, default first"""
         if self.sc["obj"] == "ind":
-            return [("m", self.obj.candles)]
+            return [("default", self.obj.candle_manager.candles)]
         return list(self.obj.get_candles().items())
 
+    def observed(self):
+        o = self.obj
+        ai = getattr(o, "_active_index", 0) if self.sc["obj"] == "ind" else 0
+        return {"at": sorted(vars(o).keys()), "ai": int(ai)}
+
+    # -- one public call ---------------------------------------------------
     def run(self, step):
         op = step[0]
         sc = self.sc
+        hexobj = sc["obj"] == "hex"
+        self.args = ([], [])
         if op == "new":
             self.new(step[1])
         elif op == "append":
-            data = mk_candles(sc["stream"], self.base, step[1], step[2], sc.get("form", "candle"))
+            form = sc.get("form", "candle")
+            data = mk_candles(sc["stream"], self.base, step[1], step[2], form)
             if len(data) == 1 and sc.get("single_unwrapped", True):
                 data = data[0]
-            self.obj.append(data)
+            before = flat_args(data, self.base) if form != "candle" else []
+            try:
+                self.obj.append(data)
+            finally:
+                self.args = (before, flat_args(data, self.base) if form != "candle" else [])
         elif op == "collapse":
-            mgrs = ([self.obj.candle_manager] if sc["obj"] == "ind"
-                    else [i.candle_manager for i in self.inds])
+            mgrs = ([self.obj.candle_manager] if not hexobj
+                    else [self.indicator(i).candle_manager for i in self.active])
             for m in mgrs:
                 m.collapse_candles()
         elif op == "calculate":
-            if sc["obj"] == "hex":
-                self.obj.calculate(step[1] or None)
-            else:
-                self.obj.calculate()
+            self.obj.calculate(step[1] or None) if hexobj else self.obj.calculate()
         elif op == "purge":
-            if sc["obj"] == "hex":
-                self.obj.purge(step[1] or None)
-            else:
-                self.obj.purge()
+            self.obj.purge(step[1] or None) if hexobj else self.obj.purge()
         elif op == "recalculate":
-            if sc["obj"] == "hex":
-                self.obj.recalculate(step[1] or None)
-            else:
-                self.obj.recalculate()
+            self.obj.recalculate(step[1] or None) if hexobj else self.obj.recalculate()
         elif op == "calculate_index":
-            if sc["obj"] == "hex":
+            if hexobj:
                 self.obj.calculate_index(step[1] or None, step[2])
             else:
                 self.obj.calculate_index(step[2])
+        elif op == "add":
+            i = step[1]
+            cfg = self.cfgs[i]
+            m = self._member(cfg, step[2] if len(step) > 2 else "obj")
+            before = set(self.obj.indicators.keys())
+            self.obj.add_indicator(m)
+            new = [n for n in self.obj.indicators.keys() if n not in before]
+            self.live[i] = new[0] if new else (m.name if hasattr(m, "name") else "")
+            if i not in self.active:
+                self.active.append(i)
+        elif op == "remove":
+            self.obj.remove_indicator(step[1])
+            self.active = [i for i in self.active if self.live.get(i) != step[1]]
+        elif op == "reads":
+            return [self.do_read(r) for r in step[1]]
         else:
             raise ValueError(op)
+        return []
+
+    # -- read-only calls ---------------------------------------------------
+    def do_read(self, r):
+        """r = (what, indicator number or -1, name or '', index or NOIDX)"""
+        what, ino, name, idx = r
+        hexobj = self.sc["obj"] == "hex"
+        ind = self.indicator(ino) if ino >= 0 else None
+        j = 0
+        nm = name or (ind.name if ind is not None else "")
+        res = None
+        touch = False
+        if what == "ind.reading":
+            res = ind.reading(name or None, None if idx == NOIDX else idx)
+        elif what == "ind.read_candle":
+            res = ind.read_candle(ind.candles[idx], name or None)
+        elif what == "ind.prev_reading":
+            res = ind.prev_reading(name or None)
+        elif what == "ind.as_list":
+            res = ("list", ind.as_list(name or None))
+        elif what == "ind.has_reading":
+            res = ind.has_reading
+        elif what == "ind.reading_count":
+            res = ind.reading_count(name or None)
+        elif what == "hex.reading":
+            res = self.obj.reading(nm) if idx == NOIDX else self.obj.reading(nm, idx)
+            idx = -1 if idx == NOIDX else idx
+        elif what == "hex.prev_reading":
+            res = self.obj.prev_reading(nm)
+        elif what == "hex.has_reading":
+            res = self.obj.has_reading(nm)
+        elif what == "hex.reading_as_list":
+            res = ("list", self.obj.reading_as_list(nm))
+        else:
+            touch = True
+            if what == "str":
+                str(ind if ind is not None else self.obj)
+            elif what == "repr":
+                repr(ind if ind is not None else self.obj)
+            elif what == "name":
+                (ind if ind is not None else self.obj).name
+            elif what == "settings":
+                ind.settings if ind is not None else self.obj.indicator_settings
+            elif what == "reading_period":
+                ind.reading_period(idx if idx != NOIDX else 2, name or None)
+            elif what == "candles_sum":
+                ind.candles_sum(idx if idx != NOIDX else 2, name or "close")   # a numeric series
+            elif what == "hex.misc":
+                self.obj.timeframes, self.obj.indicators, self.obj.candles(), self.obj.get_candles()
+            else:
+                raise ValueError(what)
+        # which manager the spec should look at
+        if what.startswith("ind.") and ind is not None:
+            j = self.manager_index_of(ino)
+        elif what == "hex.reading_as_list":
+            prim = nm.split(".")[0]
+            owner = [i for i in self.active if self.live.get(i) == prim]
+            j = self.manager_index_of(owner[0]) if owner else 0
+        if touch:
+            rv = {"t": "skip"}
+        elif isinstance(res, tuple):
+            rv = {"t": "l", "v": [val(x) for x in res[1]]}
+        else:
+            rv = val(res)
+        ai = int(getattr(ind, "_active_index", 0)) if ind is not None else 0
+        return {"w": what, "j": j, "n": ref(nm), "i": idx, "r": rv, "ai": ai}
+
+    def manager_index_of(self, ino):
+        if self.sc["obj"] == "ind":
+            return 1
+        cands = self.indicator(ino).candles
+        for k, (_, cs) in enumerate(self.managers()):
+            if cs is cands:                     # identity, only to locate the list
+                return k + 1
+        return 1
 
 
-def batch_twin(sc, base, k):
-    """the same configuration built over the whole consumed prefix and calculated once"""
+def run_prog(sc, base, prog=None):
     s = Session(sc, base)
+    for step in (prog or sc["prog"]):
+        s.run(step)
+    return s
+
+
+def batch_twin(sc, base, k, cfgs=None):
+    """the same configuration built over the whole consumed prefix and calculated once"""
+    sc2 = dict(sc)
+    if cfgs is not None:
+        sc2["inds"] = cfgs
+        sc2["late"] = []
+        sc2["member_forms"] = ["obj"] * len(cfgs)
+    s = Session(sc2, base)
     s.new(k)
-    if sc["obj"] == "hex":
-        s.obj.calculate()
-    else:
-        s.obj.calculate()
+    s.obj.calculate()
     return s
 
 
@@ -156,107 +305,163 @@ def _mgr_tfs(sc, names):
 
 
 def record(sc):
-    tfs = [c.timeframe for c in sc["inds"]] + [sc.get("hex", {}).get("timeframe")]
+    tfs = [c.timeframe for c in sc["inds"] + sc.get("late", [])] + [sc.get("hex", {}).get("timeframe")]
     base = base_for([t for t in tfs if t])
     ses = Session(sc, base)
-    events = []
-    prev = None
+    snaps = []          # per event: (event dict, {manager name: projected candles})
     consumed = 0
-    mg_names = None
+    worker = None
+    if sc.get("work"):
+        import workrec
+
+        worker = workrec.Recorder()
     for step in sc["prog"]:
         exc = ""
+        reads = []
+        wk = []
         try:
-            ses.run(step)
+            if worker and step[0] == "append" and step[1] == step[2] and ses.obj is not None:
+                worker.start(ses)
+                try:
+                    reads = ses.run(step)
+                finally:
+                    wk = [worker.stop(ses)]
+            else:
+                reads = ses.run(step)
         except Exception as e:  # recorded, judged by the spec
             exc = type(e).__name__
         if ses.obj is None:
-            events.append({"op": step[0], "a": 0, "b": 0, "nm": "", "idx": 0, "exc": exc or "NoObject",
-                           "m": [], "bt": []})
+            snaps.append(({"op": step[0], "a": 0, "b": 0, "nm": "", "idx": 0, "exc": exc or "NoObject",
+                           "bt": [], "ob": {"at": [], "ai": 0}, "rd": [], "ab": [], "aa": [], "wk": []}, {}))
             break
         if step[0] == "new":
             consumed = step[1]
         elif step[0] == "append":
             consumed = step[2]
-        mgrs = ses.managers()
-        if mg_names is None:
-            mg_names = [n for n, _ in mgrs]
-            prev = [[] for _ in mgrs]
-        cur = [proj_candles(cs, base) for _, cs in mgrs]
+        nm = ""
+        if step[0] in ("calculate", "purge", "recalculate", "calculate_index", "remove") and len(step) > 1:
+            nm = step[1] or ""
+        elif step[0] == "add":
+            nm = ses.live.get(step[1], "")
         ev = {"op": step[0],
               "a": step[1] if step[0] == "append" else 0,
               "b": step[2] if step[0] == "append" else (step[1] if step[0] == "new" else 0),
-              "nm": step[1] if step[0] in ("calculate", "purge", "recalculate", "calculate_index") and step[1] else "",
+              "nm": nm,
               "idx": step[2] if step[0] == "calculate_index" else 0,
-              "exc": exc,
-              "m": [delta(p, c) for p, c in zip(prev, cur)],
-              "bt": []}
-        events.append(ev)
-        prev = cur
+              "exc": exc, "bt": [], "ob": ses.observed(), "rd": reads,
+              "ab": ses.args[0], "aa": ses.args[1], "wk": [w for w in wk if w]}
+        snaps.append((ev, {n: proj_candles(cs, base) for n, cs in ses.managers()}))
         if exc:
             break
+    # final list of managers (those created later are empty until then)
+    mg_names = []
+    for _, snap in snaps:
+        for n in snap:
+            if n not in mg_names:
+                mg_names.append(n)
+    if not mg_names:
+        mg_names = ["default"]
+    first_seen = {n: min(i for i, (_, s) in enumerate(snaps) if n in s) for n in mg_names
+                  if any(n in s for _, s in snaps)}
+    events = []
+    prev = {n: [] for n in mg_names}
+    for ev, snap in snaps:
+        cur = {n: snap.get(n, []) for n in mg_names}
+        ev["m"] = [delta(prev[n], cur[n]) for n in mg_names]
+        events.append(ev)
+        prev = cur
     # twins on the final state: the same configuration driven differently
     if events and not events[-1]["exc"] and consumed > 0:
-        skip_of = [1 if (m_tf) else 0 for m_tf in _mgr_tfs(sc, mg_names)]
+        skip_of = [1 if t else 0 for t in _mgr_tfs(sc, mg_names)]
+        last = events[-1]
         for kind in sc.get("twins", []):
             try:
-                if kind == "batch":
-                    tw = batch_twin(sc, base, consumed)
-                    for j, (_, cs) in enumerate(tw.managers()):
-                        events[-1]["bt"].append({"j": j + 1, "mode": "full", "skip": 0, "names": [],
-                                                 "clause": "batch", "cs": proj_candles(cs, base)})
+                if kind in ("batch", "final_batch"):
+                    cfgs = [ses.cfgs[i] for i in ses.active] if kind == "final_batch" else None
+                    tw = batch_twin(sc, base, consumed, cfgs)
+                    twm = dict(tw.managers())
+                    for j, n in enumerate(mg_names):
+                        if n in twm:
+                            last["bt"].append({"j": j + 1, "mode": "full", "skip": 0, "names": [],
+                                               "clause": "batch", "cs": proj_candles(twm[n], base)})
                 elif kind == "longer":
                     tw = batch_twin(sc, base, len(sc["stream"]))
                     for j, (_, cs) in enumerate(tw.managers()):
-                        events[-1]["bt"].append({"j": j + 1, "mode": "prefix", "skip": skip_of[j],
-                                                 "names": [], "clause": "longer",
-                                                 "cs": proj_candles(cs, base)})
+                        last["bt"].append({"j": j + 1, "mode": "prefix", "skip": skip_of[j],
+                                           "names": [], "clause": "longer", "cs": proj_candles(cs, base)})
                 elif kind == "untrimmed":
                     sc2 = dict(sc)
                     sc2["inds"] = [c.clone(lifespan=None) for c in sc["inds"]]
                     if "hex" in sc:
                         sc2["hex"] = dict(sc["hex"], lifespan=None)
-                    tw = Session(sc2, base)
-                    for step in sc["prog"]:
-                        tw.run(step)
+                    tw = run_prog(sc2, base)
                     for j, (_, cs) in enumerate(tw.managers()):
-                        events[-1]["bt"].append({"j": j + 1, "mode": "tail", "skip": 0, "names": [],
-                                                 "clause": "untrimmed", "cs": proj_candles(cs, base)})
+                        last["bt"].append({"j": j + 1, "mode": "tail", "skip": 0, "names": [],
+                                           "clause": "untrimmed", "cs": proj_candles(cs, base)})
                 elif kind == "standalone":
                     hx = sc.get("hex", {})
-                    for c, live in zip(sc["inds"], ses.names):
+                    for i in ses.active:
+                        c = ses.cfgs[i]
                         c2 = c.clone(timeframe=c.timeframe or hx.get("timeframe"),
                                      fill=hx.get("fill", False), lifespan=hx.get("lifespan"),
                                      ctype=hx.get("ctype"))
                         sc2 = {"id": sc["id"], "fam": sc["fam"], "obj": "ind", "inds": [c2],
-                               "stream": sc["stream"], "prog": sc["prog"]}
-                        tw = Session(sc2, base)
-                        for step in sc["prog"]:
-                            tw.run((step[0], "", *step[2:]) if step[0] in ("calculate",) else step)
-                        events[-1]["bt"].append({"j": c.mg_index(mg_names), "mode": "full", "skip": 0,
-                                                 "names": [live], "clause": "standalone",
-                                                 "cs": proj_candles(tw.obj.candles, base)})
+                               "stream": sc["stream"], "form": sc.get("form", "candle")}
+                        prog = [s for s in sc["prog"] if s[0] in ("new", "append")]
+                        tw = run_prog(sc2, base, prog)
+                        if prog and prog[-1][0] == "new":
+                            tw.obj.calculate()
+                        pcs = proj_candles(tw.obj.candles, base)
+                        if tw.obj.name != ses.live[i]:
+                            # the generated name carries the timeframe suffix only when the
+                            # indicator itself was given one: compare the columns under one name
+                            for pc in pcs:
+                                pc["ik"] = [ses.live[i] if k == tw.obj.name else k for k in pc["ik"]]
+                        last["bt"].append({"j": c.mg_index(mg_names), "mode": "full", "skip": 0,
+                                           "names": [ses.live[i]], "clause": "standalone", "cs": pcs})
+                elif kind in ("alone", "reorder"):
+                    prog = [s for s in sc["prog"] if s[0] in ("new", "append", "calculate") and
+                            (s[0] != "calculate" or not s[1])]
+                    if kind == "alone":
+                        variants = [[i] for i in ses.active if i < len(sc["inds"])]
+                    else:
+                        variants = [list(reversed(range(len(sc["inds"]))))]
+                    for order in variants:
+                        sc2 = dict(sc, inds=[sc["inds"][i] for i in order], late=[],
+                                   member_forms=["obj"] * len(order))
+                        tw = run_prog(sc2, base, prog)
+                        twm = dict(tw.managers())
+                        for i in order:
+                            if i not in ses.active:
+                                continue
+                            n = mg_names[sc["inds"][i].mg_index(mg_names) - 1]
+                            if n in twm:
+                                last["bt"].append({"j": mg_names.index(n) + 1, "mode": "full", "skip": 0,
+                                                   "names": [ses.live[i]], "clause": kind,
+                                                   "cs": proj_candles(twm[n], base)})
             except Exception as e:
                 events.append({"op": "twin_" + kind, "a": 0, "b": consumed, "nm": "", "idx": 0,
                                "exc": type(e).__name__,
-                               "m": [{"drop": 0, "len": len(p), "d": []} for p in prev], "bt": []})
+                               "m": [{"drop": 0, "len": len(prev[n]), "d": []} for n in mg_names],
+                               "bt": [], "ob": last["ob"], "rd": [], "ab": [], "aa": [], "wk": []})
                 break
     # manager and indicator descriptors
     mg = []
     inds = []
     if sc["obj"] == "ind":
         c = sc["inds"][0]
-        mg.append(mgr_cfg("m", c.timeframe, c.fill, c.lifespan, c.ctype))
-        inds.append(c.spec(ses.names[0] if ses.names else ""))
+        mg.append(mgr_cfg("default", c.timeframe, c.fill, c.lifespan, c.ctype))
+        inds.append(dict(c.spec(ses.live.get(0, "")), act=1))
     else:
         hx = sc.get("hex", {})
-        names = mg_names or ["default"]
-        for n in names:
+        for n in mg_names:
             if n == "default":
                 mg.append(mgr_cfg(n, hx.get("timeframe"), hx.get("fill"), hx.get("lifespan"), hx.get("ctype")))
             else:
-                mg.append(mgr_cfg(n, n, hx.get("fill"), hx.get("lifespan"), hx.get("ctype"), src=1))
-        for c, live in zip(sc["inds"], ses.names):
-            c.mg = c.mg_index(names)
-            inds.append(c.spec(live))
+                mg.append(mgr_cfg(n, n, hx.get("fill"), hx.get("lifespan"), hx.get("ctype"), src=1,
+                                  late=1 if first_seen.get(n, 0) > 0 else 0))
+        for i, c in enumerate(ses.cfgs or (sc["inds"] + sc.get("late", []))):
+            c.mg = c.mg_index(mg_names)
+            inds.append(dict(c.spec(ses.live.get(i, "")), act=1 if i < len(sc["inds"]) else 0))
     return {"id": sc["id"], "fam": sc["fam"], "mg": mg, "ind": inds,
             "raw": raw_json(sc["stream"]), "ev": events}
